@@ -27,7 +27,9 @@ RULE = ("TLC enumerates every level instance of the reference world (every prefi
         "occupancies, shapes of each kind, states, planning problem set, planning problems, goal, goal states) x the whole "
         "rotation table (4 axis rotations, 32 Pythagorean angles, 10 small angles on both sides of 0.05 rad, with -1/0/+1 full "
         "turns inside [-2pi, 2pi]) at t = (3,-2); x 14 sampled tokens at t = (0,0) and, with both undo forms, t = (-50,70); "
-        "the 15 proper role subsets x 4 tokens at scenario level (thorough: full product x 3 undo modes); plus seeded "
+        "the 15 proper role subsets x 4 tokens at scenario level (thorough: targets x 3 translations x whole table, undo "
+        "none / two-step / single-call by translation); each case = 1 call event + 1 event per component kind + 1 per "
+        "derived quantity (+ 1 per kind after the undo); plus seeded "
         "random float angles (uniform, dense near 0, near +-0.05, near multiples of pi/2 and +-2pi) x random targets x "
         "random integer translations.  distinct_nontrivial = distinct (target, t, rotation, mix, undo) with a "
         "non-identity motion.")
